@@ -623,8 +623,18 @@ def alter_code(
         else:
             raise ValueError(f"Invalid action: {action}")
 
+    # Nodes are put in and taken out line by line, which does not work out for every layout
+    if not core.is_valid_python(source):
+        return original_source
+
     source = _substitute_original_strings(original_source, source)
     source = _substitute_original_fstrings(original_source, source)
+
+    if not core.is_valid_python(source):
+        return original_source
+
+    if core.is_compilable(original_source) and not core.is_compilable(source):
+        return original_source  # For example an assignment that ended up above its global statement
 
     return source
 
